@@ -465,6 +465,20 @@ func GenFeed(r *core.Rand, o Opts) *Feed {
 			vi++
 		}
 	}
+	// accidental equality across fields: a vehicle whose only identifier is the trip_id of the trip it serves
+	// (rail producers do copy trip_id into vehicle.id); it is a vehicle like any other
+	for ti := 0; ti < len(f.Trips); ti++ {
+		v, ok := f.Assoc[ti]
+		if !ok || !r.Chance(1, 6) || f.Trips[ti].Desc.GetTripId() == "" {
+			continue
+		}
+		d := &gtfsrt.VehicleDescriptor{Id: S(f.Trips[ti].Desc.GetTripId())}
+		if k := vehKey(d); !vseen[k] {
+			vseen[k] = true
+			f.Vehs[v] = VehSpec{Desc: d, Key: k}
+			f.feat("vehicle-id-equals-trip-id")
+		}
+	}
 	vehTrip := map[int]int{}
 	for t, v := range f.Assoc {
 		vehTrip[v] = t
